@@ -99,6 +99,24 @@ pub fn generate(rng: &mut Rng, tier: Tier, stats: &mut GenStats) -> Scenario {
             schedule.insert(at, Step::Cd(g.rng.pick(&dirs).clone()));
         }
     }
+    // ... or relative bases, one walk after the other: a walk is advanced for a while and dropped,
+    // the working directory changes, and only then the next walk is constructed (lazily), its
+    // relative base spelled from the new working directory.
+    let mut lazy = lazy;
+    if nw >= 2 && !schedule.iter().any(|s| matches!(s, Step::Cd(_))) && g.rng.chance(2, 10) {
+        let dirs = Gen::plain_dirs(&model);
+        schedule.clear();
+        for wi in 0..nw {
+            for _ in 0..g.rng.range(0, 2 * tree.len() + 2) {
+                schedule.push(Step::W(wi));
+            }
+            if wi + 1 < nw {
+                schedule.push(Step::D(wi));
+                schedule.push(Step::Cd(g.rng.pick(&dirs).clone()));
+            }
+        }
+        lazy = true;
+    }
     Scenario {
         prop: "C02".into(),
         seed: 0,
